@@ -201,4 +201,6 @@ class CirculationPump(BranchWOInternalsComponent):
         cp_i1 = fluid.get_heat_capacity(tout)
 
         mass = branch_pit[f:t, MDOTINIT]
-        res_table['qext_w'].values[:] = mass * (cp_i1 * tout - cp_i * t_from)
+        # heat added to the fluid: mass flow times the mean heat capacity times the temperature rise (the same
+        # mean heat capacity all other branch heat terms use)
+        res_table['qext_w'].values[:] = mass * (cp_i1 + cp_i) / 2 * (tout - t_from)
